@@ -84,6 +84,62 @@ ShadowCases ==
   \cup {Case("shadow-closure-" \o c,
         InClosure(ConstructF(c, <<>>, V("v"), V("w"))), T3(1, 2, 1)) : c \in BoundByConstruct}
 
+\* blocks whose ONLY statement is a declaration of x with ANOTHER type (the outer x is an int and is used as an int
+\* afterwards): a block is a scope however short it is
+Str == S(<<105, 110>>)
+SoloDecl == [set |-> <<Set("x", Str)>>,
+             destruct |-> <<Destruct(<<"x", "z">>, TupE(<<Str, H(3)>>))>>,
+             fndecl |-> <<FnDecl("x", <<>>, WInt, <<Ret(I(2))>>)>>]
+SoloConstruct(c, decl, five) ==
+  CASE c = "block" -> <<Block(decl)>>
+    [] c = "if" -> <<If(Bin("==", five, I(5)), Block(decl), NoneV)>>
+    [] c = "else" -> <<If(Bin("==", five, I(2)), Block(<<I(0)>>), Block(decl))>>
+    [] c = "ifset" -> <<IfSet("y", WInt, five, Block(decl), NoneV)>>
+    [] c = "match-ty" -> <<Match(five, <<ArmTy("y", WInt, Block(decl))>>)>>
+    [] c = "match-val" -> <<Match(five, <<ArmVal(<<I(5)>>, Block(decl)), ArmOther(Block(<<I(0)>>))>>)>>
+    [] c = "match-other" -> <<Match(five, <<ArmVal(<<I(6)>>, Block(<<I(0)>>)), ArmOther(Block(decl))>>)>>
+    [] c = "for" -> <<For("e", IterE(ArrE(<<I(7)>>)), Block(decl))>>
+    [] c = "nested" -> <<Block(<<Block(decl)>>)>>
+SoloConstructs == {"block", "if", "else", "ifset", "match-ty", "match-val", "match-other", "for", "nested"}
+T2(a, b) == TupV(<<IntV(a), IntV(b)>>)
+SoloCases ==
+  {Case("solo-" \o c \o "-" \o d \o "-" \o o,
+        <<Set("x", Outer[o]), Set("b", V("x"))>> \o SoloConstruct(c, SoloDecl[d], H(5)) \o <<TupE(<<V("b"), Bin("+", V("x"), I(1))>>)>>,
+        T2(1, 2)) : c \in SoloConstructs, d \in DOMAIN SoloDecl, o \in DOMAIN Outer}
+  \cup {Case("solo-fn-" \o c \o "-" \o d,
+        <<FnDecl("sf", <<P("x", WInt), P("w", WInt)>>, WTup(<<WInt, WInt>>),
+                 <<Set("b", V("x"))>> \o SoloConstruct(c, SoloDecl[d], V("w")) \o <<Ret(TupE(<<V("b"), Bin("+", V("x"), I(1))>>))>>),
+          CallE(V("sf"), <<H(1), H(5)>>)>>,
+        T2(1, 2)) : c \in SoloConstructs, d \in DOMAIN SoloDecl}
+  \cup {Case("solo-closure-" \o c \o "-" \o d,
+        <<FnDecl("mk", <<P("x", WInt), P("w", WInt)>>, WFn(<<>>, WTup(<<WInt, WInt>>)),
+                 <<Ret(FnE(<<>>, WTup(<<WInt, WInt>>),
+                           <<Set("b", V("x"))>> \o SoloConstruct(c, SoloDecl[d], V("w")) \o <<Ret(TupE(<<V("b"), Bin("+", V("x"), I(1))>>))>>))>>),
+          CallE(CallE(V("mk"), <<H(1), H(5)>>), <<>>)>>,
+        T2(1, 2)) : c \in SoloConstructs, d \in DOMAIN SoloDecl}
+
+\* a name that is re-declared — a constant as a function, a function with another signature, a function as a constant —
+\* means the NEW declaration from then on, in every kind of scope
+F0(n, v) == FnDecl(n, <<>>, WInt, <<Ret(I(v))>>)
+F1(n) == FnDecl(n, <<P("a", WInt)>>, WInt, <<Ret(Bin("*", V("a"), I(2)))>>)
+RedeclBody(k) ==
+  CASE k = "const-to-fn" -> <<Set("f", I(5)), F0("f", 1), Set("r", CallE(V("f"), <<>>))>>
+    [] k = "hidden-to-fn" -> <<Set("f", H(5)), F0("f", 1), Set("r", CallE(V("f"), <<>>))>>
+    [] k = "fn-to-other-signature" -> <<F1("f"), Set("q", CallE(V("f"), <<I(4)>>)), F0("f", 1), Set("r", Bin("+", CallE(V("f"), <<>>), V("q")))>>
+    [] k = "fn-to-other-signature-2" -> <<F0("f", 3), F1("f"), Set("r", CallE(V("f"), <<I(4)>>))>>
+    [] k = "fn-to-const" -> <<F0("f", 3), Set("f", I(5)), Set("r", Bin("+", V("f"), I(1)))>>
+    [] k = "fn-to-tuple-result" -> <<F0("f", 3), FnDecl("f", <<>>, WTup(<<WInt, WInt>>), <<Ret(TupE(<<I(1), I(2)>>))>>),
+                                     Destruct(<<"r", "z">>, CallE(V("f"), <<>>))>>
+RedeclWant(k) == CASE k \in {"const-to-fn", "hidden-to-fn", "fn-to-tuple-result"} -> IntV(1) [] k = "fn-to-other-signature" -> IntV(9)
+                   [] k = "fn-to-other-signature-2" -> IntV(8) [] k = "fn-to-const" -> IntV(6)
+RedeclKinds == {"const-to-fn", "hidden-to-fn", "fn-to-other-signature", "fn-to-other-signature-2", "fn-to-const", "fn-to-tuple-result"}
+RedeclCases ==
+  {Case("redeclare-top-" \o k, RedeclBody(k) \o <<V("r")>>, RedeclWant(k)) : k \in RedeclKinds}
+  \cup {Case("redeclare-block-" \o k, <<Set("out", Block(RedeclBody(k) \o <<V("r")>>)), V("out")>>, RedeclWant(k)) : k \in RedeclKinds}
+  \cup {Case("redeclare-fn-" \o k, <<FnDecl("body", <<P("unused", WInt)>>, WInt, RedeclBody(k) \o <<Ret(V("r"))>>), CallE(V("body"), <<H(0)>>)>>,
+              RedeclWant(k)) : k \in RedeclKinds}
+  \cup {Case("redeclare-mod-" \o k, <<Set("m", ModE(RedeclBody(k))), Field(V("m"), "r")>>, RedeclWant(k)) : k \in RedeclKinds}
+
 \* ---------------------------------------------------------------- (B) capture
 GetX == FnE(<<>>, WInt, <<Ret(V("x"))>>)
 CaptureCases == {
@@ -93,6 +149,17 @@ CaptureCases == {
        TupV(<<IntV(1), IntV(2)>>)),
   Case("capture-redeclare-decl", <<Set("x", H(1)), FnDecl("f", <<>>, WInt, <<Ret(V("x"))>>), Set("x", H(2)), TupE(<<CallE(V("f"), <<>>), V("x")>>)>>,
        TupV(<<IntV(1), IntV(2)>>)),
+  \* a value arm that lists a literal AND a captured non-constant name
+  Case("capture-in-match-value-arm",
+       <<FnDecl("mk", <<P("limit", WInt)>>, WFn(<<WInt>>, WInt),
+                <<Ret(FnE(<<P("v", WInt)>>, WInt, <<Ret(Match(V("v"), <<ArmVal(<<I(0), V("limit")>>, I(1)), ArmOther(I(0))>>))>>))>>),
+         Set("g", CallE(V("mk"), <<H(7)>>)), TupE(<<CallE(V("g"), <<H(7)>>), CallE(V("g"), <<H(0)>>), CallE(V("g"), <<H(3)>>)>>)>>, T3(1, 1, 0)),
+  Case("capture-in-match-value-arm-top",
+       <<Set("limit", H(7)), FnDecl("g", <<P("v", WInt)>>, WInt, <<Ret(Match(V("v"), <<ArmVal(<<V("limit"), I(0)>>, I(1)), ArmOther(I(0))>>))>>),
+         Set("limit", H(3)), TupE(<<CallE(V("g"), <<H(7)>>), CallE(V("g"), <<H(0)>>), CallE(V("g"), <<H(3)>>)>>)>>, T3(1, 1, 0)),
+  Case("capture-in-match-scrutinee-and-arms",
+       <<Set("lo", H(1)), Set("hi", H(9)), FnDecl("g", <<>>, WInt, <<Ret(Match(V("lo"), <<ArmVal(<<V("hi")>>, I(1)), ArmVal(<<I(5), V("lo")>>, I(2)), ArmOther(I(0))>>))>>),
+         CallE(V("g"), <<>>)>>, IntV(2)),
   Case("capture-cell-shared", <<Set("c", MutE(WInt, I(1))), Set("f", FnE(<<>>, WInt, <<Ret(Deref(V("c")))>>)),
                                 Asg("=", V("c"), I(5)), TupE(<<CallE(V("f"), <<>>), Deref(V("c"))>>)>>,
        TupV(<<IntV(5), IntV(5)>>)),
@@ -245,7 +312,7 @@ ModCases == {
 }
 
 \* int / bool / struct values cannot share one TLC set: keep the suites in separate sequences
-CaseSeq == SetToSeq(ShadowCases) \o SetToSeq(CaptureCases) \o SetToSeq(RecCases) \o SetToSeq(NoisyCases) \o SetToSeq(ModCases)
+CaseSeq == SetToSeq(ShadowCases) \o SetToSeq(SoloCases) \o SetToSeq(RedeclCases) \o SetToSeq(CaptureCases) \o SetToSeq(RecCases) \o SetToSeq(NoisyCases) \o SetToSeq(ModCases)
 N == Len(CaseSeq)
 Fuel == 3000
 Out(i) == Outcome(Run(CaseSeq[i].prog, Fuel))
